@@ -55,6 +55,10 @@ func kinds() []kindSpec {
 		{"[]*int", reflect.TypeOf([]*int{}), "other", "", ""},
 		{"[]*string", reflect.TypeOf([]*string{}), "other", "", ""},
 		{"[]string/default-num", reflect.TypeOf([]string{}), "other", "[1,2]", `["1","2"]`},
+		{"*map[string]int", reflect.TypeOf(&map[string]int{}), "other", "", ""},
+		{"map[string]*map[string]int", reflect.TypeOf(map[string]*map[string]int{}), "other", "", ""},
+		{"*[]int", reflect.TypeOf(&[]int{}), "other", "", ""},
+		{"[]*[]int", reflect.TypeOf([]*[]int{}), "other", "", ""},
 		{"map[int]string", reflect.TypeOf(map[int]string{}), "other", "", ""},
 		{"map[string]any", reflect.TypeOf(map[string]any{}), "other", "", ""},
 		{"map[string]int", reflect.TypeOf(map[string]int{}), "other", "", ""},
@@ -77,6 +81,8 @@ var docValues = []string{
 	`[{"a":1}]`, `[{"a":"x"}]`, `[{}]`, `[{"a":1},{"a":2}]`, `{"k":{"a":1}}`, `{"k":{"a":"x"}}`, `{"k":1}`,
 	// containers written inside a string (the form-value style), numeric keys, not-a-numbers
 	`"[1,2]"`, `"[1,null]"`, `"[]"`, `"[\"a\"]"`, `"[300]"`, `{"1":"x"}`, `{"1":1}`, `"NaN"`, `"Inf"`, `"-Inf"`,
+	// numerals that are decimal only in appearance (a leading zero, base prefixes, digit separators)
+	`"010"`, `"0x10"`, `"0b11"`, `"0o17"`, `"1_000"`, `"-010"`,
 }
 
 // generatedDocs: every JSON value of nesting depth <= 2 over a small atom set (thorough tier)
@@ -120,6 +126,7 @@ func setEnvs() {
 		}
 	}
 	os.Unsetenv("VERIF_ENV_UNSET")
+	os.Setenv("VERIF_ENV_DURTEXT", "1s")
 }
 
 type tagSpec struct {
@@ -161,6 +168,8 @@ func tagSpecs() []tagSpec {
 		{"env", func(k kindSpec) (string, bool) { return ",env=" + envName(k), k.cat != "other" }},
 		{"optional+env", func(k kindSpec) (string, bool) { return ",optional,env=" + envName(k), k.cat != "other" }},
 		{"env-unset", func(k kindSpec) (string, bool) { return ",env=VERIF_ENV_UNSET", k.cat != "other" }},
+		// a variable holding a duration text: right for a Duration field, ill-typed for the numeric kinds
+		{"env-duration-text", func(k kindSpec) (string, bool) { return ",env=VERIF_ENV_DURTEXT", k.cat != "other" }},
 	}
 }
 
@@ -398,6 +407,15 @@ func classifyDoc(dv string) string {
 
 func checkOne(c *vrt.Cases, in string, k kindSpec, tag, dv string, fv reflect.Value, err error) {
 	cls := k.name + "/" + classifyDoc(dv)
+	if strings.Contains(tag, "VERIF_ENV_DURTEXT") {
+		// "1s": a Duration or string field may take it, anything else has to fail (not panic)
+		if err == nil {
+			if ok, why := docEquals(fv, "1s", "json"); !ok {
+				c.Violation(in, "env/"+cls, "accepted the environment value \"1s\" without error but "+why)
+			}
+		}
+		return
+	}
 	if strings.Contains(tag, "env=") && !strings.Contains(tag, "VERIF_ENV_UNSET") {
 		// the variable is set to the kind's default literal: if the call succeeds the field
 		// holds exactly that value (whatever the document says)
@@ -444,7 +462,7 @@ func checkOne(c *vrt.Cases, in string, k kindSpec, tag, dv string, fv reflect.Va
 				c.Violation(in, "optional/"+cls, fmt.Sprintf("absent optional field = %v, want zero", fv.Interface()))
 			}
 		default:
-			if err == nil && fv.Kind() == reflect.Map {
+			if err == nil && (fv.Kind() == reflect.Map || fv.Kind() == reflect.Ptr && fv.Type().Elem().Kind() == reflect.Map) {
 				return // an absent map field is filled with an empty map by design (not "required")
 			}
 			if err == nil {
@@ -564,6 +582,82 @@ func TestVerifDefaultIndependence(t *testing.T) {
 				if got != alone[second.name] {
 					c.Violation(fmt.Sprintf("default=%s first=%s second=%s", text, first.name, second.name), "history dependence",
 						fmt.Sprintf("a %s field with default=%s gives %s on its own, but %s after a %s field with the same default text was unmarshalled", second.name, text, alone[second.name], got, first.name))
+				}
+			}
+		}
+	}
+	reset()
+	c.Done()
+}
+
+// The same struct type read through unmarshalers of different tag keys (as the request parser
+// does: path, form, header and json over one struct): whether a nested struct member is
+// required depends on the tag key, so what one unmarshaler found out must not decide for the
+// other - each result equals the one obtained in a fresh process.
+func TestVerifRequiredAcrossTagKeys(t *testing.T) {
+	defer vrt.WriteReport()
+	if !vrt.Shard(1) {
+		return
+	}
+	c := vrt.NewCases("unmarshal/required-across-tag-keys")
+	type inner struct {
+		A string `json:"a,optional"`
+	}
+	type outerPlain struct {
+		In inner
+	}
+	type outerJSON struct {
+		In inner `json:"in"`
+	}
+	reset := func() {
+		structCacheLock.Lock()
+		rv := reflect.ValueOf(&structRequiredCache).Elem()
+		rv.Set(reflect.MakeMap(rv.Type()))
+		structCacheLock.Unlock()
+	}
+	type shape struct {
+		name string
+		mk   func() any
+	}
+	shapes := []shape{{"untagged-member", func() any { return &outerPlain{} }}, {"json-tagged-member", func() any { return &outerJSON{} }}}
+	readers := map[string]func(v any) error{
+		"json": func(v any) error { return UnmarshalJsonBytes([]byte(`{}`), v) },
+		"form": func(v any) error { return NewUnmarshaler("form", WithStringValues()).Unmarshal(map[string]any{}, v) },
+		"path": func(v any) error { return NewUnmarshaler("path", WithStringValues()).Unmarshal(map[string]any{}, v) },
+	}
+	names := []string{"form", "json", "path"}
+	run := func(reader string, s shape) string {
+		var err error
+		var pan any
+		func() {
+			defer func() { pan = recover() }()
+			err = readers[reader](s.mk())
+		}()
+		if pan != nil {
+			return fmt.Sprintf("panic:%v", pan)
+		}
+		return fmt.Sprintf("err=%v", err != nil)
+	}
+	for _, s := range shapes {
+		alone := map[string]string{}
+		for _, rd := range names {
+			reset()
+			alone[rd] = run(rd, s)
+		}
+		for _, first := range names {
+			for _, second := range names {
+				if first == second {
+					continue
+				}
+				reset()
+				run(first, s)
+				got := run(second, s)
+				in := fmt.Sprintf("shape=%s first=%s second=%s", s.name, first, second)
+				c.Eval(in+" -> "+got, func() any {
+					return map[string]any{"shape": s.name, "first": first, "second": second, "second_result": got, "second_alone": alone[second]}
+				})
+				if got != alone[second] {
+					c.Violation(in, "history dependence", fmt.Sprintf("the %s unmarshaler gives %s for the empty document on its own, but %s after the %s unmarshaler has read the same struct type", second, alone[second], got, first))
 				}
 			}
 		}
